@@ -297,11 +297,14 @@ func safeCheck(p *Property, c *Case, st *Stats) (v *Violation) {
 		}()
 		done <- p.Check(c, st)
 	}()
+	// the allowance grows with the input: a multi-megabyte stream delivered one byte per source Read, under an
+	// oracle that runs several decoders, legitimately takes minutes on a loaded machine
+	limit := watchdog + time.Duration(len(c.Stream)+len(c.Stream2))*time.Second/8000
 	select {
 	case v = <-done:
 		return v
-	case <-time.After(watchdog):
-		return &Violation{Key: "hang", Msg: fmt.Sprintf("no result within %v (hang)", watchdog), Case: *c}
+	case <-time.After(limit):
+		return &Violation{Key: "hang", Msg: fmt.Sprintf("no result within %v (hang)", limit), Case: *c}
 	}
 }
 
